@@ -404,7 +404,38 @@ def r04_6(chk):
     chk.floor("R04.6", 2, "both Sequence implementations")
 
 
+def _window_subsets(fn):
+    """calls <annotation db>.subset(...) restricted to a coordinate window that do not ask for partial matches"""
+    out = []
+    for c in ast.walk(fn):
+        if isinstance(c, ast.Call) and isinstance(c.func, ast.Attribute) and c.func.attr == "subset" and "annotation_db" in norm(c.func.value):
+            kws = {kw.arg: kw.value for kw in c.keywords}
+            if ("start" in kws or "stop" in kws) and not (isinstance(kws.get("allow_partial"), ast.Constant) and kws["allow_partial"].value is True):
+                out.append(c)
+    return out
+
+
+def r04_7(chk):
+    chk.rule("R04.7", "a derived sequence keeps every annotation that overlaps its view: wherever a sequence / alignment method narrows the annotation db to a coordinate window (annotation_db.subset(start=, stop=)) it asks for partial matches (allow_partial=True) -- the default keeps only records wholly inside the window, so features straddling the view's edge silently disappear from the copy")
+    n = 0
+    for rel in (OLD, NEW, "core/alignment.py", NEWALN):
+        m = chk.repo.module(rel)
+        for cname, ci in m.classes.items():
+            for name, fn in ci.methods.items():
+                if not isinstance(fn, ast.FunctionDef):
+                    continue
+                n += 1
+                for c in _window_subsets(fn):
+                    chk.violation("R04.7", key(m, f"{cname}.{name}", f"windowed subset {norm(c)[:50]}"), m.loc(c), f"`{norm(c)[:90]}` keeps only the records that lie entirely inside the window: a feature that the view cuts through is dropped from the derived object, where get_features(allow_partial=True) on the original returns it")
+    probe = ast.parse("def copy(self):\n    db = self.annotation_db.subset(seqid=s, start=a, stop=b)\n").body[0]
+    if not _window_subsets(probe):
+        raise AnalysisError("R04.7 self-probe failed")
+    chk.ok("R04.7", key(chk.repo.module(NEW), "*", "no windowed subset without partial matches"), NEW, f"{n} methods scanned", nontrivial=False)
+    chk.floor("R04.7", 0, "expected-zero rule with embedded probe")
+
+
 def run(chk):
+    r04_7(chk)
     r04_1(chk)
     r04_6(chk)
     r04_2(chk)
